@@ -69,7 +69,7 @@ def _bind_module(m):
         m.np = arrays.np_proxy
     m.float = values.sym_float
     m.int = values.sym_int
-    m.set = values.SymSet
+    m.set = values.sym_set
     d = m.__dict__
     if d.get("datetime") is _dt:
         m.datetime = calmodel.datetime_model
